@@ -412,6 +412,18 @@ def isLocal (name : Bytes) (r : R) : Scopes → Bool
       else isLocal name r rest
     else isLocal name r rest
 
+/-- Spec of the scope walk.  Of the scopes that enclose the name (most recently pushed first), the
+*visible* ones are those reached walking outwards while `inherits` holds — up to and including the
+first scope that does not inherit. -/
+def visibleScopes : List Scope → List Scope
+  | [] => []
+  | s :: rest => if s.inherits then s :: visibleScopes rest else [s]
+
+/-- Spec: the name resolves to a local definition iff some visible enclosing scope holds a
+definition with the same text. -/
+def isLocalSpec (name : Bytes) (r : R) (scopes : Scopes) : Bool :=
+  (visibleScopes (scopes.filter (·.contains r))).any (fun s => s.defs.any (· == name))
+
 /-! ## One match -/
 
 structure St where
@@ -477,17 +489,18 @@ def docsOf (src : Bytes) (pi : PatInfo) (a : Acc) : Option Bytes :=
 
 def maxLineLen : Nat := 180
 
-/-- The body of `if let Some(mat) = self.matches.next()` for a pattern of the tags query. -/
-def processTag (v : Variant) (cfg : Cfg) (src : Bytes) (pi : PatInfo) (m : Mat) (st : St) : St :=
+/-- What a match of a tags pattern contributes: `none` = `continue`; otherwise the tag to insert
+under the match's pattern index and the new `prev_line_info`. -/
+def tagOf (v : Variant) (cfg : Cfg) (src : Bytes) (pi : PatInfo) (m : Mat) (st : St) : Option (Tag × Option LineInfo) :=
   let a := capLoop cfg pi m.caps
   match a.name with
-  | none => st
+  | none => none
   | some nameNode =>
     let nameR : R := ⟨nameNode.sb, nameNode.eb⟩
     match a.tag with
     | some tagNode =>
-      if nameNode.err then st
-      else if pi.nonLocal && isLocal (slice src nameR.s nameR.e) nameR st.scopes then st
+      if nameNode.err then none
+      else if pi.nonLocal && isLocal (slice src nameR.s nameR.e) nameR st.scopes then none
       else
         let docs := docsOf src pi a
         let range : R := ⟨min tagNode.sb nameR.s, max tagNode.eb nameR.e⟩
@@ -495,10 +508,20 @@ def processTag (v : Variant) (cfg : Cfg) (src : Bytes) (pi : PatInfo) (m : Mat) 
         let tag : Tag := { range := range, name := nameR, line := co.line, spanS := nameNode.sp,
                            spanE := nameNode.ep, u16 := co.u16, docs := docs, isDef := a.isDef, stid := a.stid }
         let prev' := if v.multiRowFixed && nameNode.sp.row != nameNode.ep.row then none else some co.info
-        { st with prev := prev', queue := qInsert tag m.pat st.queue }
+        some (tag, prev')
     | none =>
-      if a.ignored then { st with queue := qInsert (Tag.ignored nameR) m.pat st.queue }
-      else st
+      if a.ignored then some (Tag.ignored nameR, st.prev) else none
+
+/-- The body of `if let Some(mat) = self.matches.next()` for a pattern of the tags query. -/
+def processTag (v : Variant) (cfg : Cfg) (src : Bytes) (pi : PatInfo) (m : Mat) (st : St) : St :=
+  match tagOf v cfg src pi m st with
+  | none => st
+  | some (tag, prev') => { st with prev := prev', queue := qInsert tag m.pat st.queue }
+
+/-- The entry a match inserts into the queue, if any. -/
+def inserted (v : Variant) (cfg : Cfg) (src : Bytes) (m : Mat) (st : St) : Option (Tag × Nat) :=
+  if m.pat < cfg.tagsFrom then none
+  else (tagOf v cfg src (cfg.pats[m.pat]?.getD {}) m st).map (fun x => (x.1, m.pat))
 
 def processMatch (v : Variant) (cfg : Cfg) (src : Bytes) (m : Mat) (st : St) : St :=
   let pi := cfg.pats[m.pat]?.getD {}
@@ -538,5 +561,62 @@ def cacheFold (f : Bytes → Nat) (src : Bytes) (limit : Nat) : Option LineInfo 
   | prev, o :: os =>
     let co := cacheStep f src limit prev o.name o.sp o.ep
     co :: cacheFold f src limit (some co.info) os
+
+end TsVerif.C18
+
+namespace TsVerif.C18
+
+/-- The name node of a match, as the capture loop of `TagsIter::next` determines it. -/
+def nameOf (cfg : Cfg) (m : Mat) : Option R :=
+  if m.pat < cfg.tagsFrom then none
+  else ((capLoop cfg (cfg.pats[m.pat]?.getD {}) m.caps).name).map (fun c => (⟨c.sb, c.eb⟩ : R))
+
+def names (cfg : Cfg) (ms : List Mat) : List R := ms.filterMap (nameOf cfg)
+
+/-- Test configuration for the examples: capture 0 = `@name`, capture 1 = a reference kind. -/
+def wcfg : Cfg := { nameIdx := some 0, capMap := [(1, 0, false)], tagsFrom := 0, pats := #[{}] }
+def wm (s e : Nat) : Mat := { pat := 0, caps := [⟨0, s, e, ⟨0, s⟩, ⟨0, e⟩, false⟩, ⟨1, s, e, ⟨0, s⟩, ⟨0, e⟩, false⟩] }
+
+end TsVerif.C18
+
+namespace TsVerif.C18
+
+/-! ## The loop with pattern indices kept (used by the theorems about "lowest pattern index wins") -/
+
+/-- `flushReady` returning the popped non-ignored ENTRIES (tag and pattern index). -/
+def flushReadyP : Nat → Queue → Queue × Queue
+  | 0, q => ([], q)
+  | fuel + 1, q =>
+    if ready q then
+      match q with
+      | [] => ([], q)
+      | (t, p) :: rest =>
+        let (out, q') := flushReadyP fuel rest
+        (if t.isIgnored then out else (t, p) :: out, q')
+    else ([], q)
+
+def drainP (skip : Bool) : Nat → Queue → Queue
+  | 0, _ => []
+  | fuel + 1, q =>
+    match q with
+    | [] => []
+    | (t, p) :: rest =>
+      if ready q then (if t.isIgnored then drainP skip fuel rest else (t, p) :: drainP skip fuel rest)
+      else if skip && t.isIgnored then drainP skip fuel rest
+      else (t, p) :: drainP skip fuel rest
+
+/-- `run`, emitting entries. -/
+def runP (v : Variant) (cfg : Cfg) (src : Bytes) : List Mat → St → Queue
+  | [], st => drainP v.drainSkips st.queue.length st.queue
+  | m :: ms, st =>
+    let (out, q) := flushReadyP st.queue.length st.queue
+    out ++ runP v cfg src ms (processMatch v cfg src m { st with queue := q })
+
+/-- The entries inserted into the queue while `run` processes the matches, in order. -/
+def arrivals (v : Variant) (cfg : Cfg) (src : Bytes) : List Mat → St → Queue
+  | [], _ => []
+  | m :: ms, st =>
+    let st1 : St := { st with queue := (flushReadyP st.queue.length st.queue).2 }
+    (inserted v cfg src m st1).toList ++ arrivals v cfg src ms (processMatch v cfg src m st1)
 
 end TsVerif.C18
